@@ -399,16 +399,21 @@ void World::inject_can(int bus, const CanRec &c) {
         }
         if (e.can_filter_set && !(c.can_id & CAN_ERR_FLAG)) {  // receive filters: a frame passes if one of them matches
             bool pass = false;
+            size_t matched = 0;
             for (auto &fl : e.can_filters) {
                 // (a filter whose mask contains CAN_ERR_FLAG lives in the kernel's list for error message frames: data frames are never compared with it)
                 if (fl.can_mask & CAN_ERR_FLAG) continue;
                 bool m = ((c.can_id & fl.can_mask & ~CAN_INV_FILTER) == (fl.can_id & fl.can_mask & ~CAN_INV_FILTER));
                 if (fl.can_id & CAN_INV_FILTER) m = !m;
-                if (m) { pass = true; break; }
+                if (m) { matched++; if (!e.can_join_filters) { pass = true; break; } }
             }
+            // CAN_RAW_JOIN_FILTERS: the frame is delivered only if all of the socket's filters matched it
+            if (e.can_join_filters) pass = matched == e.can_filters.size();
             if (!pass) { count("ev.can_frame_rejected_by_socket_filter"); continue; }
         }
         if (c.fd && !e.canfd_enabled) { count("ev.can_fd_frame_not_accepted"); continue; }  // classic sockets do not see FD frames
+        // a receive buffer the program reduced holds only a few frames (each is charged about 768 bytes of socket-buffer memory)
+        if (e.rcvbuf_bytes && e.canq.size() * 768 >= e.rcvbuf_bytes && e.canq.size() < 256) { count("ev.dropped_by_reduced_receive_buffer"); continue; }
         if (e.canq.size() >= canq_cap) { count("fault.can_qdrop"); continue; }
         e.canq.push_back(c);
         log("can-rx", kFdBase + i, c.can_id, c.data, c.len);
@@ -804,6 +809,9 @@ int __wrap_setsockopt(int fd, int level, int optname, const void *optval, sockle
         e->can_filter_set = true;
     } else if (level == SOL_CAN_RAW && optname == CAN_RAW_ERR_FILTER && optlen >= sizeof(can_err_mask_t)) {
         e->can_err_mask = *(const can_err_mask_t *)optval;
+    } else if (level == SOL_CAN_RAW && optname == CAN_RAW_JOIN_FILTERS) {
+        if (optlen != sizeof(int)) { w.count("ev.setsockopt_einval"); errno = EINVAL; return -1; }
+        e->can_join_filters = *(const int *)optval != 0;
     } else if (level == SOL_SOCKET && optname == SO_BINDTODEVICE) {
         e->bind_dev.assign((const char *)optval, strnlen((const char *)optval, optlen));
     } else if (level == SOL_SOCKET && optname == SO_RCVBUF && optlen >= sizeof(int)) {
